@@ -2318,6 +2318,14 @@ func (c *compiler) VisitAssignStmt(s *ast.AssignStmt) ast.VisitResult {
 		index = c.floatOrByteAsInt(index, indexTyp)
 		c.cbb.NewCall(c.ddpstring.replaceCharIrFun, lhs, rhs, index)
 	} else {
+		// the value may be (part of) the old value of the variable (Speichere t in t),
+		// so a non-temporary has to be copied before the old value is freed
+		if !isTempRhs && !rhsTyp.IsPrimitive() {
+			dest := c.NewAlloca(rhsTyp.IrType())
+			rhs, rhsTyp = c.scp.addTemporary(c.deepCopyInto(dest, rhs, rhsTyp), rhsTyp)
+			isTempRhs = true
+		}
+
 		c.freeNonPrimitive(lhs, lhsTyp) // free the old value in the variable/list
 
 		// implicit cast to any if required
